@@ -46,6 +46,8 @@ REF_IDENTITY = (
 )
 # std wrappers that are their single field as far as values go
 TRANSPARENT = ("std::num::Wrapping", "core::num::Wrapping")
+IC_PATH = "wrath_header::inner_crypto::InnerCrypto"
+IC_APPLY = IC_PATH + "::apply"
 WRAPPING_OPS = {"Add": "wrapping_add", "Sub": "wrapping_sub", "Mul": "wrapping_mul"}
 MAX_DEPTH = 10
 
@@ -98,6 +100,22 @@ class Engine:
             self._se[path] = se
             se.execute()
         return self._se[path]
+
+    def deref_field(self, path):
+        """i when the body `path` (a crate type's deref / deref_mut) returns a reference to field
+        i of its receiver and does nothing else; else None"""
+        memo = self.__dict__.setdefault("_deref_field", {})
+        if path in memo:
+            return memo[path]
+        memo[path] = None
+        b = self.fb.body(path)
+        if b is not None and b.arg_count == 1 and not any(blk["term"]["k"] == "call" for blk in b.blocks if not blk["cleanup"]):
+            se = SymExec(Engine(self.fb), b)
+            se.execute()
+            r = se.ret
+            if r is not None and r[0] == "ref" and r[1][0] == "field" and r[1][1] == ("deref", ("param", 1)) and isinstance(r[1][2], int) and not se.param_effects():
+                memo[path] = r[1][2]
+        return memo[path]
 
     def summary(self, path):
         if path in self._summ:
@@ -438,6 +456,25 @@ class SymExec:
                 dest = self.place_loc(st, t["dest"])
                 self.write(st, dest, v)
                 return {"k": "call", "name": name, "args": args, "locargs": args, "term": v, "inlined": True, "ret": v, "site": site, "dest": dest}
+        # a crate type's own `Deref` / `DerefMut` that hands out one of its fields (`impl Deref for
+        # Wrapper { fn deref(&self) -> &Inner { &self.0 } }`): a projection of the argument
+        if (name.endswith(" as std::ops::Deref>::deref") or name.endswith(" as std::ops::DerefMut>::deref_mut")) and name in self.fb.bodies and len(args) == 1 and args[0][0] == "ref":
+            fi = self.eng.deref_field(name)
+            if fi is not None:
+                r = ("ref", ("field", args[0][1], fi), args[0][2])
+                dest = self.place_loc(st, t["dest"])
+                self.write(st, dest, r)
+                return {"k": "call", "name": name, "args": args, "locargs": args, "term": r, "inlined": True, "ret": r, "site": site, "dest": dest}
+        # the keystream applied directly to the cipher inside the one-field stream wrapper, where
+        # the pinned tree's forwarding method `InnerCrypto::apply` no longer exists: the same
+        # operation under the name the rules know (apply(x, d) is by definition
+        # x.<cipher>.apply_keystream(d))
+        if name == "rc4::Rc4::apply_keystream" and IC_APPLY not in self.fb.bodies and len(args) == 2 and args[0][0] == "ref" and args[0][1][0] == "field" and args[0][1][2] == 0:
+            wty = self.loc_ty(args[0][1][1])
+            if wty is not None and wty.k == "adt" and wty.path == IC_PATH and len(self.fb.adt_fields(IC_PATH) or []) == 1:
+                name = IC_APPLY
+                args = (("ref", args[0][1][1], args[0][2]),) + tuple(args[1:])
+                t = dict(t, resolved=IC_APPLY, callee=IC_APPLY, resolved_local=False)
         # reference-to-reference identities of std: the result points into the argument's pointee
         if name in REF_IDENTITY and len(args) == 1 and args[0][0] == "ref":
             dest = self.place_loc(st, t["dest"])
